@@ -77,43 +77,53 @@ func tagRun(args []string) error {
 		if len(p) != 3 {
 			return fmt.Errorf("bad line %q", sc.Text())
 		}
-		toks := strings.Fields(p[1])
-		for i, t := range toks {
-			if r, ok := tagText[t]; ok {
-				toks[i] = r
+		abstract := strings.Fields(p[1])
+		spellings := []string{""}
+		if strings.Contains(p[1], "Bad") {
+			spellings = []string{"'", "`", "\"abc", "/* c", "\\", "'ab'"}
+		}
+		for _, badSpelling := range spellings {
+			toks := append([]string{}, abstract...)
+			for i, t := range toks {
+				if r, ok := tagText[t]; ok {
+					toks[i] = r
+				}
+				if t == "Bad" {
+					toks[i] = badSpelling
+				}
 			}
-		}
-		tag := strings.Join(toks, " ")
-		hasSelf := strings.Contains(tag, "@ @")
-		forms := map[string][]reflect.StructField{
-			"whole":  {{Name: "A", Type: strT, Tag: reflect.StructTag(tag)}},
-			"parser": {{Name: "A", Type: strT, Tag: reflect.StructTag("json:\"a\" parser:" + strconv.Quote(tag))}},
-		}
-		if hasSelf {
-			// @@ needs a struct-typed field: with one, the documented syntax must build
-			forms["struct"] = []reflect.StructField{{Name: "A", Type: subT, Tag: reflect.StructTag(tag)}}
-		}
-		if len(toks) >= 2 {
-			k := len(toks) / 2
-			forms["split"] = []reflect.StructField{{Name: "A", Type: strT, Tag: reflect.StructTag(strings.Join(toks[:k], " "))}, {Name: "B", Type: strT, Tag: reflect.StructTag(strings.Join(toks[k:], " "))}}
-		}
-		for form, fields := range forms {
-			res := buildTagged(fields)
-			n++
-			counts[p[2]+"/"+strings.Fields(res)[0]]++
-			ok := true
-			switch {
-			case strings.HasPrefix(res, "panic"), res == "hang":
-				ok = false
-			case p[2] == "MustError" && res != "err":
-				ok = false
-			case p[2] == "MustBuild" && res != "ok" && form != "split":
-				ok = false
+			tag := strings.Join(toks, " ")
+			hasSelf := strings.Contains(tag, "@ @")
+			forms := map[string][]reflect.StructField{
+				"whole":  {{Name: "A", Type: strT, Tag: reflect.StructTag(tag)}},
+				"parser": {{Name: "A", Type: strT, Tag: reflect.StructTag("json:\"a\" parser:" + strconv.Quote(tag))}},
 			}
-			if !ok {
-				bad++
-				if bad <= 3000 {
-					fmt.Fprintf(w, "MISMATCH\t%s\t%s\t%s\t%s\t%s\n", p[0], form, tag, p[2], res)
+			if hasSelf {
+				// @@ needs a struct-typed field: with one, the documented syntax must build
+				forms["struct"] = []reflect.StructField{{Name: "A", Type: subT, Tag: reflect.StructTag(tag)}}
+			}
+			if len(toks) >= 2 {
+				k := len(toks) / 2
+				forms["split"] = []reflect.StructField{{Name: "A", Type: strT, Tag: reflect.StructTag(strings.Join(toks[:k], " "))}, {Name: "B", Type: strT, Tag: reflect.StructTag(strings.Join(toks[k:], " "))}}
+			}
+			for form, fields := range forms {
+				res := buildTagged(fields)
+				n++
+				counts[p[2]+"/"+strings.Fields(res)[0]]++
+				ok := true
+				switch {
+				case strings.HasPrefix(res, "panic"), res == "hang":
+					ok = false
+				case p[2] == "MustError" && res != "err":
+					ok = false
+				case p[2] == "MustBuild" && res != "ok" && form != "split":
+					ok = false
+				}
+				if !ok {
+					bad++
+					if bad <= 3000 {
+						fmt.Fprintf(w, "MISMATCH\t%s\t%s\t%s\t%s\t%s\n", p[0], form, tag, p[2], res)
+					}
 				}
 			}
 		}
